@@ -5,35 +5,7 @@ use glonax::core::Object;
 use glonax::driver::HydraulicControlUnit;
 use glonax::runtime::{J1939Unit, NetDriverContext};
 
-// ---- a hook on the driver's own log records: lets the harness run the command task's trigger in the middle of
-// tick (after tick has read the shared context, before it emits) - an interleaving of the real tasks that no
-// sequential stepping produces
-thread_local! {
-    static HOOK: std::cell::RefCell<Option<Box<dyn FnOnce() -> Vec<j1939::Frame>>>> = std::cell::RefCell::new(None);
-    static HOOK_OUT: std::cell::RefCell<Option<Vec<j1939::Frame>>> = std::cell::RefCell::new(None);
-}
-struct HookLog;
-impl log::Log for HookLog {
-    fn enabled(&self, _: &log::Metadata) -> bool { true }
-    fn log(&self, r: &log::Record) {
-        if r.target().contains("hydraulic") {
-            let f = HOOK.with(|h| h.borrow_mut().take());
-            if let Some(f) = f { let out = f(); HOOK_OUT.with(|o| *o.borrow_mut() = Some(out)); }
-        }
-    }
-    fn flush(&self) {}
-}
-static HOOKLOG: HookLog = HookLog;
-fn arm_hook(f: Box<dyn FnOnce() -> Vec<j1939::Frame>>) {
-    static ONCE: std::sync::Once = std::sync::Once::new();
-    ONCE.call_once(|| { let _ = log::set_logger(&HOOKLOG); });
-    log::set_max_level(log::LevelFilter::Trace);
-    HOOK.with(|h| *h.borrow_mut() = Some(f));
-}
-fn disarm_hook() -> (Option<Vec<j1939::Frame>>, Option<Box<dyn FnOnce() -> Vec<j1939::Frame>>>) {
-    log::set_max_level(log::LevelFilter::Off);
-    (HOOK_OUT.with(|o| o.borrow_mut().take()), HOOK.with(|h| h.borrow_mut().take()))
-}
+use crate::hook::{arm_hook, disarm_hook};
 
 pub fn exec(c: &[i64]) -> Vec<i64> {
     if c[0] == 1000 { return crate::authrig::exec(&c[1..]); }
@@ -70,7 +42,7 @@ pub fn exec(c: &[i64]) -> Vec<i64> {
                     // the command arrives while tick is between reading the context and emitting its frames
                     let Some((m, used)) = dec_motion(&evs[i + 1..]) else { return vec![-2] };
                     let shared = ctx.clone();
-                    arm_hook(Box::new(move || {
+                    arm_hook("hydraulic", Box::new(move || {
                         let unit = HydraulicControlUnit::new("vcan0", da, sa);
                         let mut c2 = shared; let mut tx2 = Vec::new();
                         let _ = unit.trigger(&mut c2, &mut tx2, &Object::Motion(m));
